@@ -578,6 +578,11 @@ func (s *state) emit(op, obs string) {
 	kind := strings.Fields(op)[0]
 	s.run.Tag("op/" + kind)
 	c := s.cur
+	if kind == "tmo" {
+		kv := kvs(strings.Fields(op))
+		s.run.Seen(fmt.Sprintf("%s/tmo/%s/%s", c.kind.Name, kv["cls"], obs[:strings.Index(obs, " st=")]))
+		return
+	}
 	signed := !strings.Contains(obs, "sg=-")
 	cls := kind
 	if kind == "cons" {
@@ -676,6 +681,11 @@ func (s *state) scenario(line string) {
 			}
 		}
 		s.emit(c.deliver(&m))
+	case "tmo":
+		if s.cur == nil {
+			return
+		}
+		s.emit(s.cur.timeoutOp(atoi("dh"), atoi("r")))
 	case "decided":
 		if s.cur == nil {
 			return
@@ -856,7 +866,11 @@ func main() {
 	}
 	r := hx.NewRng(run.Seed)
 	for i := 0; i < run.N; i++ {
-		genCase(s, r)
+		if *mode == "c17" {
+			genCaseC17(s, r)
+		} else {
+			genCase(s, r)
+		}
 	}
 	if os.Getenv("VERIF_DEBUG") != "" {
 		var ks []string
